@@ -128,6 +128,10 @@ fn run(case: &Value) -> Value {
             let names: Vec<&str> = DUMPS.iter().map(|(n, _)| *n).collect();
             return json!({"flows": names, "compiled": COMPILED});
         }
+        Some("echo") => {
+            // cases evaluated by another harness (h_sim); see tools/hydrob.py sim_result
+            return json!({"echo": true});
+        }
         Some("optable") => {
             return json!({"optable": serde_json::from_str::<Value>(OPTABLE).unwrap()});
         }
